@@ -242,6 +242,8 @@ pub enum MapOp {
     GetMutWrite(&'static str, i64),
     RetainKeyNot(&'static str),
     RetainInts,
+    /// stateful predicate: keeps the visible entries it is shown 1st, 3rd, ... and reports the order it saw them in
+    RetainOdd,
     SortValues,
     SortValuesByRev,
     Clear,
@@ -283,6 +285,7 @@ fn map_ops(values: &[MV], with_get_or_insert: bool) -> Vec<MapOp> {
     v.push(MapOp::RetainKeyNot("a"));
     v.push(MapOp::RetainKeyNot("b"));
     v.push(MapOp::RetainInts);
+    v.push(MapOp::RetainOdd);
     v.push(MapOp::SortValues);
     v.push(MapOp::SortValuesByRev);
     v.push(MapOp::Clear);
@@ -381,6 +384,17 @@ fn model_step(m: &mut MapModel, op: &MapOp, flex: &mut Vec<String>) -> String {
         MapOp::RetainInts => {
             m.retain(|(_, v)| matches!(v, MV::Int(_)) || !v.vis());
             String::new()
+        }
+        MapOp::RetainOdd => {
+            let mut seen: Vec<String> = Vec::new();
+            m.retain(|(k, v)| {
+                if !v.vis() {
+                    return true;
+                }
+                seen.push(k.clone());
+                seen.len() % 2 == 1
+            });
+            format!("visited {:?}", seen)
         }
         MapOp::SortValues | MapOp::TlSortValues => {
             m.sort_by(|a, b| a.0.cmp(&b.0));
@@ -546,6 +560,18 @@ impl Sys for TableSys {
             MapOp::RetainInts => {
                 t.retain(|_, v| v.is_integer());
                 String::new()
+            }
+            MapOp::RetainOdd => {
+                let mut seen: Vec<String> = Vec::new();
+                t.retain(|k, v| {
+                    // (a placeholder may or may not be offered to the predicate; it is not an entry either way)
+                    if v.is_none() {
+                        return true;
+                    }
+                    seen.push(k.to_string());
+                    seen.len() % 2 == 1
+                });
+                format!("visited {:?}", seen)
             }
             MapOp::SortValues => {
                 t.sort_values();
@@ -734,6 +760,14 @@ impl Sys for InlineSys {
                 it(item).retain(|_, v| v.is_integer());
                 String::new()
             }
+            MapOp::RetainOdd => {
+                let mut seen: Vec<String> = Vec::new();
+                it(item).retain(|k, _| {
+                    seen.push(k.to_string());
+                    seen.len() % 2 == 1
+                });
+                format!("visited {:?}", seen)
+            }
             MapOp::SortValues => {
                 it(item).sort_values();
                 String::new()
@@ -840,6 +874,8 @@ pub enum ArrOp {
     ReplaceFormatted(usize, i64),
     Remove(usize),
     RetainNot(i64),
+    /// a STATEFUL predicate (keeps the elements it is shown 1st, 3rd, ...): elements must be visited once, in order
+    RetainOdd,
     SortBy,
     SortByKeyRev,
     Clear,
@@ -894,6 +930,7 @@ impl Sys for ArraySys {
         }
         v.push(ArrOp::RetainNot(1));
         v.push(ArrOp::RetainNot(3));
+        v.push(ArrOp::RetainOdd);
         v.push(ArrOp::SortBy);
         v.push(ArrOp::SortByKeyRev);
         v.push(ArrOp::Clear);
@@ -944,6 +981,19 @@ impl Sys for ArraySys {
                 a(item).retain(|v| v.as_integer() != Some(*x));
                 m.retain(|v| v != x);
                 (String::new(), String::new())
+            }
+            ArrOp::RetainOdd => {
+                let mut seen: Vec<i64> = Vec::new();
+                a(item).retain(|v| {
+                    seen.push(v.as_integer().unwrap_or(-1));
+                    seen.len() % 2 == 1
+                });
+                let mut mseen: Vec<i64> = Vec::new();
+                m.retain(|v| {
+                    mseen.push(*v);
+                    mseen.len() % 2 == 1
+                });
+                (format!("visited {:?}", seen), format!("visited {:?}", mseen))
             }
             ArrOp::SortBy => {
                 a(item).sort_by(|p, q| p.as_integer().cmp(&q.as_integer()));
@@ -1031,6 +1081,7 @@ pub enum AotOp {
     Push(i64),
     Remove(usize),
     RetainNot(i64),
+    RetainOdd,
     Clear,
     Extend(Vec<i64>),
     GetMutWrite(usize, i64),
@@ -1080,6 +1131,7 @@ impl Sys for AotSys {
         }
         v.push(AotOp::RetainNot(1));
         v.push(AotOp::RetainNot(3));
+        v.push(AotOp::RetainOdd);
         v.push(AotOp::Clear);
         v.push(AotOp::IterMutWrite(3));
         v
@@ -1100,6 +1152,19 @@ impl Sys for AotSys {
             AotOp::RetainNot(x) => {
                 a(item).retain(|t| tid(t) != x.to_string());
                 m.retain(|v| v != x);
+            }
+            AotOp::RetainOdd => {
+                let mut seen: Vec<String> = Vec::new();
+                a(item).retain(|t| {
+                    seen.push(tid(t));
+                    seen.len() % 2 == 1
+                });
+                let mut mseen: Vec<String> = Vec::new();
+                m.retain(|v| {
+                    mseen.push(v.to_string());
+                    mseen.len() % 2 == 1
+                });
+                return (format!("visited {:?}", seen), format!("visited {:?}", mseen));
             }
             AotOp::Clear => {
                 a(item).clear();
@@ -1165,6 +1230,7 @@ pub enum TmOp {
     GetMutWrite(&'static str, i64),
     RetainKeyNot(&'static str),
     RetainValueNot(i64),
+    RetainOdd,
     Clear,
     Extend(Vec<(&'static str, i64)>),
     IterMutWrite(i64),
@@ -1212,6 +1278,7 @@ impl Sys for TomlMapSys {
         }
         v.push(TmOp::RetainKeyNot("b"));
         v.push(TmOp::RetainValueNot(1));
+        v.push(TmOp::RetainOdd);
         v.push(TmOp::Clear);
         v.push(TmOp::Extend(vec![("c", 1), ("a", 2)]));
         v.push(TmOp::IterMutWrite(1));
@@ -1298,6 +1365,19 @@ impl Sys for TomlMapSys {
                 r.retain(|_, v| v.as_integer() != Some(*x));
                 m.retain(|(_, v)| v != x);
                 (String::new(), String::new())
+            }
+            TmOp::RetainOdd => {
+                let mut seen: Vec<String> = Vec::new();
+                r.retain(|k, _| {
+                    seen.push(k.to_string());
+                    seen.len() % 2 == 1
+                });
+                let mut mseen: Vec<String> = Vec::new();
+                m.retain(|(k, _)| {
+                    mseen.push(k.clone());
+                    mseen.len() % 2 == 1
+                });
+                (format!("visited {:?}", seen), format!("visited {:?}", mseen))
             }
             TmOp::Clear => {
                 r.clear();
@@ -1620,6 +1700,85 @@ fn sort_wide_case(kind: usize, n: usize, r: usize, rev: bool, k: i64, op: usize)
     Ok(())
 }
 
+
+/// borrowed iteration, owning iteration and printing must agree on which slots of an array / array of tables hold an
+/// element, whatever was written into the slots through mutable indexing (nothing, or an item of the wrong kind)
+fn slot_family(rep: &mut Report) {
+    let t0 = std::time::Instant::now();
+    let mut cases: Vec<(bool, usize, Vec<u8>)> = Vec::new();
+    for aot in [false, true] {
+        for n in 1..=4usize {
+            for code in 1..3usize.pow(n as u32) {
+                let states: Vec<u8> = (0..n).map(|i| ((code / 3usize.pow(i as u32)) % 3) as u8).collect();
+                cases.push((aot, n, states));
+            }
+        }
+    }
+    let acc = cases
+        .par_iter()
+        .fold(Acc::default, |mut acc, (aot, n, states)| {
+            acc.evals += 1;
+            let label = format!("{} of {} elements, slots {:?} (0 = kept, 1 = vacated with mem::take, 2 = overwritten with an item of the wrong kind)", if *aot { "array of tables" } else { "array" }, n, states);
+            acc.nontrivial(label.as_bytes());
+            let r = guarded(|| -> Result<(), String> {
+                let want: Vec<String> = (0..*n).filter(|i| states[*i] == 0).map(|i| (i + 1).to_string()).collect();
+                let text: String = if *aot { (1..=*n).map(|v| format!("[[t]]\nid = {}\n", v)).collect() } else { format!("t = [{}]\n", (1..=*n).map(|v| v.to_string()).collect::<Vec<_>>().join(", ")) };
+                let mut doc: toml_edit::DocumentMut = text.parse().map_err(|e: toml_edit::TomlError| e.to_string())?;
+                for (i, st) in states.iter().enumerate() {
+                    match st {
+                        1 => {
+                            let _ = std::mem::take(&mut doc["t"][i]);
+                        }
+                        2 => {
+                            doc["t"][i] = if *aot { toml_edit::value(99) } else { Item::Table(tab(99)) };
+                        }
+                        _ => {}
+                    }
+                }
+                let (borrowed, owned): (Vec<String>, Vec<String>) = if *aot {
+                    let a = doc["t"].as_array_of_tables().ok_or("not an array of tables any more")?;
+                    (a.iter().map(tid).collect(), a.clone().into_iter().map(|t| tid(&t)).collect())
+                } else {
+                    let a = doc["t"].as_array().ok_or("not an array any more")?;
+                    let sv = |v: &Value| v.as_integer().map(|x| x.to_string()).unwrap_or_else(|| format!("?{}", v.type_name()));
+                    (a.iter().map(sv).collect(), a.clone().into_iter().map(|v| sv(&v)).collect())
+                };
+                if borrowed != want {
+                    return Err(format!("iter() yields [{}], the untouched elements are [{}]", borrowed.join(","), want.join(",")));
+                }
+                if owned != want {
+                    return Err(format!("into_iter() yields [{}] but iter() yields [{}]", owned.join(","), borrowed.join(",")));
+                }
+                let printed = doc.to_string();
+                let back: toml_edit::DocumentMut = printed.parse().map_err(|e: toml_edit::TomlError| format!("printed text {:?} does not parse: {}", printed, e.message()))?;
+                let shown: Vec<String> = match back.get("t") {
+                    None => Vec::new(),
+                    Some(Item::ArrayOfTables(a)) => a.iter().map(tid).collect(),
+                    Some(Item::Value(Value::Array(a))) => a.iter().map(|v| v.as_integer().map(|x| x.to_string()).unwrap_or_else(|| "?".into())).collect(),
+                    Some(o) => return Err(format!("printed text {:?} turns `t` into a {}", printed, o.type_name())),
+                };
+                if shown != want {
+                    return Err(format!("printed text {:?} shows [{}], iteration yields [{}]", printed, shown.join(","), want.join(",")));
+                }
+                Ok(())
+            });
+            match r {
+                Ok(Ok(())) => {
+                    acc.bump("slot-views-agree");
+                    acc.sample(|| label.clone());
+                }
+                Ok(Err(e)) => acc.viol("U-slots", label, None, e),
+                Err(p) => acc.viol("U-slots", label, None, format!("panic: {}", p)),
+            }
+            acc
+        })
+        .reduce(Acc::default, Acc::merge);
+    let n = cases.len() as u64;
+    rep.transitions = Some(rep.transitions.unwrap_or(0) + n);
+    rep.traces_validated += n;
+    rep.absorb("U-slots", "arrays and arrays of tables of 1-4 elements x every assignment of {kept, vacated, overwritten with the wrong kind of item} to the slots: iter(), into_iter() and the printed text must show the same elements", n, true, t0, acc);
+}
+
 fn sort_family(rep: &mut Report, tier: Tier) {
     // (a) dotted children
     let t0 = std::time::Instant::now();
@@ -1752,6 +1911,7 @@ pub fn c16(tier: Tier) -> i32 {
     run_sys(&mut rep, &TomlMapSys { preserve_order: preserve_order_build() }, depth, cap);
     run_sys(&mut rep, &TableSys { values: vec![MV::Int(1), MV::Aot, MV::Tab] }, depth, cap);
     sort_family(&mut rep, tier);
+    slot_family(&mut rep);
     // toml::Map in its insertion-ordered configuration: every history of <= 4 calls over 4 keys, run by the
     // cfg engine's binary built with `preserve_order`
     {
